@@ -11,6 +11,7 @@ import (
 	"io/fs"
 	"path"
 	"runtime"
+	"runtime/debug"
 	"sort"
 	"strings"
 	"sync"
@@ -373,8 +374,8 @@ func (f *FS) end(op *Op, err error) {
 // RunProc runs fn as the body of a simulated process in its own goroutine and waits until it
 // returned or was killed. Deferred functions of a killed process run (Goexit) but the disk
 // ignores them (frozen), which is what a SIGKILL amounts to for the disk.
-func RunProc(fn func()) (panicked any) {
-	done := make(chan any, 1)
+func RunProc(fn func()) *ProcPanic {
+	done := make(chan *ProcPanic, 1)
 	go func() {
 		finished := false
 		defer func() {
@@ -382,14 +383,25 @@ func RunProc(fn func()) (panicked any) {
 				done <- nil
 				return
 			}
-			r := recover() // nil when Goexit
-			done <- r
+			if r := recover(); r != nil { // nil when Goexit
+				done <- &ProcPanic{Val: r, Stack: debug.Stack()}
+				return
+			}
+			done <- nil
 		}()
 		fn()
 		finished = true
 	}()
 	return <-done
 }
+
+// ProcPanic is a panic raised inside a simulated process, with the stack it was raised on.
+type ProcPanic struct {
+	Val   any
+	Stack []byte
+}
+
+func (p *ProcPanic) Error() string { return fmt.Sprintf("panic in simulated process: %v", p.Val) }
 
 // ---- tree inspection helpers for harnesses (not operations; never counted, never faulted) ----
 
